@@ -1,6 +1,1428 @@
-//! C05 monitor (not built yet)
-use vcore::{Args, Report};
+//! C05 — every encodable value decodes back to itself, in the size it declared.
+//!
+//! For every generated value v (see codec_gen.rs: exhaustive boundary enumeration + seeded
+//! random sampling of the same generators):
+//!   size      bytes written by the real encoder == `encoding_size()` (+ data length for the
+//!             data-bearing frames) and `encoding_size() <= max_encoding_size()`
+//!   roundtrip the real decoder, applied to the written bytes in every packet type RFC 9000
+//!             Table 3 permits, returns a value equal to v, the same frame type, and
+//!   consumed  consumes exactly the bytes written (also when other bytes follow)
+//!   wrongtype in every other packet type it returns `WrongType`
+//!   package   dumping v through the real `Package` impl into a real `PacketWriter` with exactly
+//!             `encoding_size()` bytes left succeeds and writes the same bytes; with one byte less
+//!             it refuses with `Signals::CONGESTION` and writes nothing; never panics
+//!   fit       the production sizing sequences of CRYPTO / STREAM frames (estimate_max_capacity,
+//!             encoding_strategy, pre-padding, dump) never overflow the packet and decode back
+//!   packet    a packet assembled by `PacketWriter` from a header and frames is framed back by
+//!             `PacketReader` + `FrameReader` into the same header fields and frames
+use bytes::{BufMut, Bytes, BytesMut};
+use qbase::{
+    cid::{ConnectionId, WriteConnectionId, be_connection_id, be_connection_id_with_len},
+    error::ErrorKind,
+    frame::{
+        io::{WriteFrameType, be_frame},
+        *,
+    },
+    net::{
+        WriteSocketAddr,
+        addr::{EndpointAddr, WriteEndpointAddr, be_endpoint_addr},
+        be_socket_addr,
+        route::{Link, WriteLink, be_link},
+        tx::Signals,
+    },
+    packet::{
+        AssemblePacket, DataHeader, GetDcid, GetScid, GetType, KeyPhaseBit, OneRttHeader, Package, Packet, PacketContent, PacketNumber, PacketReader,
+        PacketWriter, WritePacketNumber,
+        header::{EncodeHeader, Header, LongHeaderBuilder, io::WriteHeader, io::be_header},
+        keys::DirectionalKeys,
+        long, take_pn_len,
+        r#type::io::be_packet_type,
+    },
+    param::{
+        ClientParameters, ParameterId, ServerParameters, WriteParameterId, be_parameter_value, be_raw_parameter,
+        preferred_address::{WirtePreferredAddress, be_preferred_address},
+    },
+    role::Role,
+    sid::{StreamId, WriteStreamId, be_streamid},
+    token::{WriteResetToken, be_reset_token},
+    varint::{EncodeBytes, VarInt, WriteVarInt, be_varint},
+};
+use serde_json::{Value, json};
+use std::sync::Arc;
+use vcore::{Args, Report, panics::catch};
 
-pub fn run(_args: &Args, rep: &mut Report) {
-    rep.inconclusive("monitor not built yet");
+use crate::{
+    codec_gen::{self as g, FRAME_KINDS, HeaderCase, PKT_NAMES, Src, vi},
+    codec_ref,
+};
+
+pub struct Fail {
+    pub sig: String,
+    pub what: String,
+}
+
+fn fail(out: &mut Vec<Fail>, sig: String, what: String) {
+    out.push(Fail { sig: format!("C05.{sig}"), what });
+}
+
+fn panic_loc(p: &vcore::panics::PanicRecord) -> String {
+    let l = vcore::panics::short_location(&p.location);
+    match l.find("registry/src/") {
+        Some(i) => l[i + 13..].splitn(2, '/').nth(1).unwrap_or(&l).to_string(),
+        None => l,
+    }
+}
+
+// ---------------------------------------------------------------------------------------------
+// a real PacketWriter with exactly `capacity` payload bytes left
+// ---------------------------------------------------------------------------------------------
+struct TransparentKeys;
+
+impl rustls::quic::PacketKey for TransparentKeys {
+    fn decrypt_in_place<'a>(&self, _pn: u64, _header: &[u8], payload: &'a mut [u8]) -> Result<&'a [u8], rustls::Error> {
+        let n = payload.len() - 16;
+        Ok(&payload[..n])
+    }
+    fn encrypt_in_place(&self, _pn: u64, _header: &[u8], _payload: &mut [u8]) -> Result<rustls::quic::Tag, rustls::Error> {
+        Ok(rustls::quic::Tag::from(&b"transparent_keys"[..]))
+    }
+    fn confidentiality_limit(&self) -> u64 {
+        u64::MAX
+    }
+    fn integrity_limit(&self) -> u64 {
+        u64::MAX
+    }
+    fn tag_len(&self) -> usize {
+        16
+    }
+}
+
+impl rustls::quic::HeaderProtectionKey for TransparentKeys {
+    fn decrypt_in_place(&self, _sample: &[u8], _first: &mut u8, _pn: &mut [u8]) -> Result<(), rustls::Error> {
+        Ok(())
+    }
+    fn encrypt_in_place(&self, _sample: &[u8], _first: &mut u8, _pn: &mut [u8]) -> Result<(), rustls::Error> {
+        Ok(())
+    }
+    fn sample_len(&self) -> usize {
+        16
+    }
+}
+
+fn keys() -> DirectionalKeys {
+    DirectionalKeys { header: Arc::new(TransparentKeys), packet: Arc::new(TransparentKeys) }
+}
+
+const W_HDR: usize = 9; // short header, 8-byte DCID
+const W_PN: usize = 4;
+
+/// Run `f` on a 1-RTT `PacketWriter` whose `remaining_mut()` is exactly `capacity`.
+/// Returns f's result, the payload bytes written after the packet number and what remains.
+fn with_writer<R>(capacity: usize, f: impl FnOnce(&mut PacketWriter<'_>) -> R) -> (R, Vec<u8>, usize) {
+    let mut buf = vec![0u8; W_HDR + W_PN + capacity + 16];
+    let header = OneRttHeader::new(false.into(), ConnectionId::from_slice(&[7u8; 8]));
+    let (r, written, remaining) = {
+        let mut w = PacketWriter::new_short(&header, &mut buf, (1, PacketNumber::U32(1)), keys(), KeyPhaseBit::Zero).expect("writer");
+        assert_eq!(w.remaining_mut(), capacity, "harness: writer capacity");
+        let r = f(&mut w);
+        (r, w.payload_len() - W_PN, w.remaining_mut())
+    };
+    (r, buf[W_HDR + W_PN..W_HDR + W_PN + written].to_vec(), remaining)
+}
+
+/// Dump the frame through the `Package` impl production code uses for it.
+/// `via_reliable`: wrap in `ReliableFrame` (the retransmission queue's element type) where possible.
+fn dump_frame(f: &Frame, w: &mut PacketWriter<'_>, via_reliable: bool) -> Result<PacketContent, Signals> {
+    match f.clone() {
+        Frame::Padding(mut x) => x.dump(w),
+        Frame::Ping(mut x) => x.dump(w),
+        Frame::Ack(mut x) => x.dump(w),
+        Frame::Close(mut x) => x.dump(w),
+        Frame::NewToken(mut x) => {
+            if via_reliable {
+                ReliableFrame::NewToken(x).dump(w)
+            } else {
+                x.dump(w)
+            }
+        }
+        Frame::MaxData(mut x) => {
+            if via_reliable {
+                ReliableFrame::MaxData(x).dump(w)
+            } else {
+                x.dump(w)
+            }
+        }
+        Frame::DataBlocked(mut x) => {
+            if via_reliable {
+                ReliableFrame::DataBlocked(x).dump(w)
+            } else {
+                x.dump(w)
+            }
+        }
+        Frame::NewConnectionId(x) => ReliableFrame::NewConnectionId(x).dump(w),
+        Frame::RetireConnectionId(x) => ReliableFrame::RetireConnectionId(x).dump(w),
+        Frame::HandshakeDone(mut x) => {
+            if via_reliable {
+                ReliableFrame::HandshakeDone(x).dump(w)
+            } else {
+                x.dump(w)
+            }
+        }
+        Frame::PathChallenge(mut x) => x.dump(w),
+        Frame::PathResponse(mut x) => x.dump(w),
+        Frame::StreamCtl(mut x) => {
+            if via_reliable {
+                ReliableFrame::StreamCtl(x).dump(w)
+            } else {
+                x.dump(w)
+            }
+        }
+        Frame::Stream(h, d) => (h, d).dump(w),
+        Frame::Crypto(h, d) => (h, d).dump(w),
+        Frame::Datagram(h, d) => (h, d).dump(w),
+        Frame::AddAddress(x) => ReliableFrame::AddAddress(x).dump(w),
+        Frame::RemoveAddress(x) => ReliableFrame::RemoveAddress(x).dump(w),
+        Frame::PunchMeNow(x) => ReliableFrame::PunchMeNow(x).dump(w),
+        Frame::PunchHello(mut x) => x.dump(w),
+        Frame::PunchDone(mut x) => {
+            if via_reliable {
+                ReliableFrame::PunchDone(x).dump(w)
+            } else {
+                x.dump(w)
+            }
+        }
+    }
+}
+
+#[derive(Default)]
+pub struct Stats {
+    pub decodes: u64,
+    pub wrongtype: u64,
+    pub pkg_fit: u64,
+    pub pkg_refuse: u64,
+    pub bytes: u64,
+    pub params_refused: u64,
+}
+
+// ---------------------------------------------------------------------------------------------
+// frames
+// ---------------------------------------------------------------------------------------------
+pub fn check_frame(f: &Frame, st: &mut Stats) -> Vec<Fail> {
+    let mut out = vec![];
+    let kind = FRAME_KINDS[g::frame_kind(f)];
+    let enc = match catch(|| g::encode_frame(f)) {
+        Ok(v) => v,
+        Err(p) => {
+            fail(&mut out, format!("panic:{}", panic_loc(&p)), format!("encoding {} panicked: {}", g::describe_frame(f), p.message));
+            return out;
+        }
+    };
+    st.bytes += enc.len() as u64;
+    let dlen = g::data_len(f);
+    let written = enc.len();
+    let (declared, maxd) = match catch(|| (f.encoding_size(), f.max_encoding_size())) {
+        Ok(v) => v,
+        Err(p) => {
+            fail(&mut out, format!("panic:{}", panic_loc(&p)), format!("encoding_size of {} panicked: {}", g::describe_frame(f), p.message));
+            return out;
+        }
+    };
+    let mut size_ok = true;
+    if declared + dlen != written {
+        size_ok = false;
+        fail(
+            &mut out,
+            format!("size:{kind}.encoding_size"),
+            format!("{}: encoding_size() = {declared} (+{dlen} data) but the encoder writes {written} bytes", g::describe_frame(f)),
+        );
+    } else if declared > maxd {
+        size_ok = false;
+        fail(
+            &mut out,
+            format!("max:{kind}.max_encoding_size"),
+            format!("{}: encoding_size() = {declared} exceeds max_encoding_size() = {maxd}", g::describe_frame(f)),
+        );
+    }
+
+    // decode in every packet type
+    let fty = f.frame_type();
+    let tval = VarInt::from(fty).into_u64();
+    let raw = Bytes::from(enc.clone());
+    for (pi, pty) in g::pkt_types().iter().enumerate() {
+        let permitted = codec_ref::permitted(tval, pi).expect("generated frame type is known");
+        let r = catch(|| be_frame(&raw, *pty));
+        match r {
+            Err(p) => fail(
+                &mut out,
+                format!("panic:{}", panic_loc(&p)),
+                format!("decoding {} in {} panicked: {}", g::describe_frame(f), PKT_NAMES[pi], p.message),
+            ),
+            Ok(Ok((consumed, got, gty))) => {
+                if !permitted {
+                    st.wrongtype += 1;
+                    fail(
+                        &mut out,
+                        format!("wrongtype:{kind}.accepted"),
+                        format!("{} accepted in a {} packet, where RFC 9000 Table 3 does not permit it", g::describe_frame(f), PKT_NAMES[pi]),
+                    );
+                    continue;
+                }
+                st.decodes += 1;
+                if got != *f || gty != fty {
+                    fail(
+                        &mut out,
+                        format!("roundtrip:{kind}"),
+                        format!("{} decodes ({}) to a different value {} / {:?}", g::describe_frame(f), PKT_NAMES[pi], g::describe_frame(&got), gty),
+                    );
+                }
+                if consumed != written {
+                    fail(
+                        &mut out,
+                        format!("consumed:{kind}"),
+                        format!("{}: decoder consumed {consumed} of the {written} bytes written", g::describe_frame(f)),
+                    );
+                }
+            }
+            Ok(Err(e)) => {
+                if permitted {
+                    st.decodes += 1;
+                    fail(
+                        &mut out,
+                        format!("roundtrip:{kind}.rejected{}", reject_class(f)),
+                        format!("{}: decoder rejects the encoder's own output in a {} packet: {e}", g::describe_frame(f), PKT_NAMES[pi]),
+                    );
+                } else {
+                    st.wrongtype += 1;
+                    if !matches!(&e, Error::WrongType(t, p) if *t == fty && p == pty) {
+                        fail(
+                            &mut out,
+                            format!("wrongtype:{kind}.error"),
+                            format!("{} in a {} packet: expected WrongType, got {e}", g::describe_frame(f), PKT_NAMES[pi]),
+                        );
+                    }
+                }
+            }
+        }
+    }
+    let one_rtt = g::pkt_types()[3];
+    // followed by other bytes: a length-delimited frame must not read into them
+    if g::is_delimited(f) {
+        let mut more = enc.clone();
+        more.extend_from_slice(&[0x01, 0xff, 0x00, 0x7f, 0xc0]);
+        let raw2 = Bytes::from(more);
+        match catch(|| be_frame(&raw2, one_rtt)) {
+            Ok(Ok((consumed, got, _))) => {
+                st.decodes += 1;
+                if consumed != written || got != *f {
+                    fail(
+                        &mut out,
+                        format!("consumed:{kind}.trailing"),
+                        format!("{} followed by other bytes: consumed {consumed} of {written}, value equal: {}", g::describe_frame(f), got == *f),
+                    );
+                }
+            }
+            Ok(Err(e)) => fail(&mut out, format!("roundtrip:{kind}.rejected{}", reject_class(f)), format!("{} followed by other bytes is rejected: {e}", g::describe_frame(f))),
+            Err(p) => fail(&mut out, format!("panic:{}", panic_loc(&p)), format!("decoding {} + trailing bytes panicked: {}", g::describe_frame(f), p.message)),
+        }
+    }
+
+    // the real Package impl into a real PacketWriter
+    if size_ok {
+        let total = declared + dlen;
+        for via in [false, true] {
+            st.pkg_fit += 1;
+            let r = catch(|| with_writer(total, |w| dump_frame(f, w, via)));
+            match r {
+                Err(p) => fail(
+                    &mut out,
+                    format!("package.fit:{kind}"),
+                    format!("{}: dump into a packet with exactly {total} bytes left panicked at {}: {}", g::describe_frame(f), panic_loc(&p), p.message),
+                ),
+                Ok((Err(sig), _, _)) => fail(
+                    &mut out,
+                    format!("package.fit:{kind}"),
+                    format!("{}: dump into a packet with exactly encoding_size() = {total} bytes left refused with {sig:?}", g::describe_frame(f)),
+                ),
+                Ok((Ok(_), bytes, remaining)) => {
+                    if bytes != enc || remaining != 0 {
+                        fail(
+                            &mut out,
+                            format!("package.bytes:{kind}"),
+                            format!("{}: Package wrote {} bytes (remaining {remaining}), differing from put_frame's {written} bytes", g::describe_frame(f), bytes.len()),
+                        );
+                    }
+                }
+            }
+            if declared >= 1 {
+                st.pkg_refuse += 1;
+                let r = catch(|| with_writer(declared - 1, |w| dump_frame(f, w, via)));
+                match r {
+                    Err(p) => fail(
+                        &mut out,
+                        format!("package.refuse:{kind}"),
+                        format!("{}: dump into a packet with encoding_size()-1 = {} bytes left panicked at {}: {}", g::describe_frame(f), declared - 1, panic_loc(&p), p.message),
+                    ),
+                    Ok((Ok(_), bytes, _)) => fail(
+                        &mut out,
+                        format!("package.refuse:{kind}"),
+                        format!("{}: dump into a packet with only {} bytes left was admitted and wrote {} bytes", g::describe_frame(f), declared - 1, bytes.len()),
+                    ),
+                    Ok((Err(sig), bytes, _)) => {
+                        if !sig.contains(Signals::CONGESTION) || !bytes.is_empty() {
+                            fail(
+                                &mut out,
+                                format!("package.refuse:{kind}"),
+                                format!("{}: refusal signals {sig:?} (CONGESTION expected), {} bytes written", g::describe_frame(f), bytes.len()),
+                            );
+                        }
+                    }
+                }
+            }
+        }
+    }
+    out
+}
+
+fn decodes_alone(f: &Frame) -> bool {
+    let raw = Bytes::from(g::encode_frame(f));
+    matches!(catch(|| be_frame(&raw, g::pkt_types()[3])), Ok(Ok(_)))
+}
+
+/// what distinguishes the values of a kind that a decoder refuses (part of the signature)
+fn reject_class(f: &Frame) -> &'static str {
+    match f {
+        Frame::Crypto(c, _) if c.offset() > codec_ref::VMAX / 2 => ":offset-above-2^61",
+        Frame::StreamCtl(StreamCtlFrame::MaxStreams(MaxStreamsFrame::Bi(v) | MaxStreamsFrame::Uni(v))) if v.into_u64() == 1 << 60 => ":2^60",
+        _ => "",
+    }
+}
+
+/// several frames back to back through `FrameReader`
+fn check_sequence(s: &mut Src, st: &mut Stats) -> (Vec<Fail>, u64) {
+    let mut out = vec![];
+    let pi = s.pick(5) as usize;
+    let pty = g::pkt_types()[pi];
+    let n = 1 + s.wide(8) as usize;
+    let mut frames = vec![];
+    let mut guard = 0;
+    while frames.len() < n && guard < 200 {
+        guard += 1;
+        let kind = s.wide(FRAME_KINDS.len() as u64) as usize;
+        let f = g::gen_frame_of(s, kind, 120);
+        let t = VarInt::from(f.frame_type()).into_u64();
+        if !codec_ref::permitted(t, pi).unwrap() {
+            continue;
+        }
+        if g::data_len(&f) > 2000 || !decodes_alone(&f) {
+            continue; // a frame that is rejected on its own is reported by the frame group
+        }
+        let last = frames.len() + 1 == n;
+        if !g::is_delimited(&f) && !last {
+            continue;
+        }
+        frames.push(f);
+    }
+    let mut buf: Vec<u8> = vec![];
+    for f in &frames {
+        buf.extend_from_slice(&g::encode_frame(f));
+    }
+    let h = vcore::fnv(&buf);
+    let total = buf.len();
+    let mut reader = FrameReader::new(Bytes::from(buf), pty);
+    let mut got = vec![];
+    let mut steps = 0;
+    loop {
+        steps += 1;
+        if steps > total + 2 {
+            fail(&mut out, "sequence:no-progress".into(), format!("FrameReader did not finish a {total}-byte payload of {} frames within {} steps", frames.len(), total + 2));
+            break;
+        }
+        match catch(|| reader.next()) {
+            Err(p) => {
+                fail(&mut out, format!("panic:{}", panic_loc(&p)), format!("FrameReader panicked on its own encoder's output: {}", p.message));
+                break;
+            }
+            Ok(None) => break,
+            Ok(Some(Err(e))) => {
+                fail(&mut out, "sequence:rejected".into(), format!("FrameReader rejects frame #{} of {:?}: {e}", got.len(), frames.iter().map(g::describe_frame).collect::<Vec<_>>()));
+                break;
+            }
+            Ok(Some(Ok((f, _)))) => {
+                st.decodes += 1;
+                got.push(f)
+            }
+        }
+    }
+    if out.is_empty() && got != frames {
+        fail(
+            &mut out,
+            "sequence:differs".into(),
+            format!("{} frames written to a {} payload, {} read back, first difference at #{}", frames.len(), PKT_NAMES[pi], got.len(), got.iter().zip(&frames).take_while(|(a, b)| a == b).count()),
+        );
+    }
+    (out, h)
+}
+
+// ---------------------------------------------------------------------------------------------
+// production sizing sequences of CRYPTO and STREAM frames
+// ---------------------------------------------------------------------------------------------
+#[derive(Debug, Clone)]
+pub struct FitCase {
+    pub stream: bool,
+    pub cap: usize,
+    pub sid: u64,
+    pub offset: u64,
+    /// data length as a fraction selector of the estimated maximum: 0 => max, 1 => max-1, 2 => 1, 3 => half, 4 => 0 (FIN only)
+    pub nsel: u64,
+    pub fin: bool,
+}
+
+impl FitCase {
+    fn to_json(&self) -> Value {
+        json!({"kind":"c05","group":"fit","stream":self.stream,"cap":self.cap,"sid":self.sid,"offset":self.offset,"nsel":self.nsel,"fin":self.fin})
+    }
+    fn from_json(v: &Value) -> Self {
+        FitCase {
+            stream: v["stream"].as_bool().unwrap(),
+            cap: v["cap"].as_u64().unwrap() as usize,
+            sid: v["sid"].as_u64().unwrap(),
+            offset: v["offset"].as_u64().unwrap(),
+            nsel: v["nsel"].as_u64().unwrap(),
+            fin: v["fin"].as_bool().unwrap(),
+        }
+    }
+}
+
+/// Read a payload back: (PADDING frames before the first other frame, the other frames, PADDING after)
+fn pad_and_read(payload_with_padding: Vec<u8>) -> Result<(usize, Vec<Frame>, usize), String> {
+    let one_rtt = g::pkt_types()[3];
+    let (mut before, mut after, mut v) = (0, 0, vec![]);
+    for r in FrameReader::new(Bytes::from(payload_with_padding), one_rtt) {
+        match r {
+            Ok((Frame::Padding(_), _)) => {
+                if v.is_empty() {
+                    before += 1
+                } else {
+                    after += 1
+                }
+            }
+            Ok((f, _)) => {
+                if after > 0 {
+                    return Err("a frame follows the trailing padding".into());
+                }
+                v.push(f)
+            }
+            Err(e) => return Err(e.to_string()),
+        }
+    }
+    Ok((before, v, after))
+}
+
+pub fn check_fit(c: &FitCase) -> (Vec<Fail>, bool) {
+    let mut out = vec![];
+    let mut exercised = false;
+    if !c.stream {
+        // qrecovery/src/crypto.rs Sender::try_load_data
+        let r = catch(|| {
+            with_writer(c.cap, |w| {
+                let max_size = w.remaining_mut();
+                let Some(n) = CryptoFrame::estimate_max_capacity(max_size, c.offset) else { return Ok(None) };
+                let n = match c.nsel {
+                    0 => n,
+                    1 => n.saturating_sub(1).max(1),
+                    2 => 1,
+                    _ => (n / 2).max(1),
+                };
+                if c.offset + n as u64 > codec_ref::VMAX {
+                    return Ok(None);
+                }
+                let frame = CryptoFrame::new(vi(c.offset), vi(n as u64));
+                let need = frame.encoding_size() + n;
+                if need > max_size {
+                    return Err(format!("estimate_max_capacity({max_size}, {}) = {n} data bytes, but header {} + data {n} = {need} exceeds the capacity", c.offset, frame.encoding_size()));
+                }
+                let mut data = vec![0u8; n];
+                vcore::prf_fill(c.offset, 0x55, 0, &mut data);
+                let data = Bytes::from(data);
+                let r = (frame, data.clone()).dump(w);
+                Ok(Some((frame, data, r.is_ok())))
+            })
+        });
+        match r {
+            Err(p) => fail(&mut out, "fit:crypto.panic".into(), format!("CRYPTO sizing for capacity {} offset {} panicked at {}: {}", c.cap, c.offset, panic_loc(&p), p.message)),
+            Ok((Err(m), _, _)) => fail(&mut out, "fit:crypto.estimate".into(), m),
+            Ok((Ok(None), _, _)) => {}
+            Ok((Ok(Some((frame, data, ok))), bytes, _)) => {
+                exercised = true;
+                if !ok {
+                    fail(&mut out, "fit:crypto.refused".into(), format!("CRYPTO frame sized by estimate_max_capacity({}, {}) refused by Package::dump", c.cap, c.offset));
+                } else {
+                    match pad_and_read(bytes) {
+                        Ok((0, fs, 0)) if fs == vec![Frame::Crypto(frame, data)] => {}
+                        Ok((b, fs, a)) => fail(&mut out, "fit:crypto.readback".into(), format!("CRYPTO {:?} reads back as {b} padding + {} frames + {a} padding", frame, fs.len())),
+                        Err(e) => {
+                            let whole = Frame::Crypto(frame, Bytes::new());
+                            fail(&mut out, format!("roundtrip:crypto.rejected{}", reject_class(&whole)), format!("CRYPTO {:?} sized by estimate_max_capacity does not read back: {e}", frame))
+                        }
+                    }
+                }
+            }
+        }
+    } else {
+        // qrecovery/src/send/outgoing.rs Outgoing::try_load_data_into
+        let sid = StreamId::from(vi(c.sid));
+        let r = catch(|| {
+            with_writer(c.cap, |w| {
+                let origin_len = w.remaining_mut();
+                let Some(maxn) = StreamFrame::estimate_max_capacity(origin_len, sid, c.offset) else { return Ok(None) };
+                let n = match c.nsel {
+                    0 => maxn,
+                    1 => maxn.saturating_sub(1),
+                    2 => 1.min(maxn),
+                    3 => maxn / 2,
+                    _ => 0,
+                };
+                if n == 0 && !c.fin {
+                    return Ok(None);
+                }
+                if c.offset + n as u64 > codec_ref::VMAX {
+                    return Ok(None);
+                }
+                let mut frame = StreamFrame::new(sid, c.offset, n);
+                frame.set_eos_flag(c.fin);
+                let strategy = frame.encoding_strategy(origin_len);
+                frame.set_len_bit(strategy.len_bit());
+                let pre = strategy.pre_padding();
+                let need = pre + frame.encoding_size() + n;
+                if need > origin_len {
+                    return Err(format!("stream sizing: pre-padding {pre} + header {} + data {n} = {need} exceeds the capacity {origin_len}", frame.encoding_size()));
+                }
+                if strategy.len_bit() == Len::Omit && need != origin_len {
+                    return Err(format!(
+                        "stream sizing: frame without Length field ends at {need} of {origin_len} bytes; whatever follows would be read as stream data"
+                    ));
+                }
+                w.put_bytes(0, pre);
+                let mut data = vec![0u8; n];
+                vcore::prf_fill(c.offset, 0x56, 0, &mut data);
+                // stream data that cannot be confused with padding
+                for b in data.iter_mut() {
+                    *b |= 1;
+                }
+                let data = Bytes::from(data);
+                let r = (frame, data.clone()).dump(w);
+                let rest = w.remaining_mut();
+                w.put_bytes(0, rest); // what PadToFull / PadTo20 would do
+                Ok(Some((frame, data, pre, rest, r.is_ok())))
+            })
+        });
+        match r {
+            Err(p) => fail(&mut out, "fit:stream.panic".into(), format!("STREAM sizing for capacity {} sid {} offset {} nsel {} panicked at {}: {}", c.cap, c.sid, c.offset, c.nsel, panic_loc(&p), p.message)),
+            Ok((Err(m), _, _)) => fail(&mut out, "fit:stream.strategy".into(), m),
+            Ok((Ok(None), _, _)) => {}
+            Ok((Ok(Some((frame, data, pre, rest, ok))), bytes, _)) => {
+                exercised = true;
+                if !ok {
+                    fail(&mut out, "fit:stream.refused".into(), format!("STREAM frame sized by encoding_strategy({}) refused by Package::dump", c.cap));
+                } else {
+                    match pad_and_read(bytes) {
+                        Ok((b, fs, a)) if b == pre && a == rest && fs == vec![Frame::Stream(frame, data)] => {}
+                        Ok((b, fs, a)) => fail(
+                            &mut out,
+                            "fit:stream.readback".into(),
+                            format!("{:?} with pre-padding {pre} and {rest} trailing padding bytes reads back as {b} padding + {} frames + {a} padding", frame, fs.len()),
+                        ),
+                        Err(e) => fail(&mut out, "fit:stream.readback".into(), format!("{:?} does not read back: {e}", frame)),
+                    }
+                }
+            }
+        }
+    }
+    (out, exercised)
+}
+
+// ---------------------------------------------------------------------------------------------
+// assembled packets
+// ---------------------------------------------------------------------------------------------
+fn check_packet(s: &mut Src, st: &mut Stats) -> (Vec<Fail>, u64) {
+    let mut out = vec![];
+    let hk = 2 + s.pick(4); // initial, 0rtt, handshake, 1rtt
+    let pi = match hk {
+        2 => 0,
+        3 => 1,
+        4 => 2,
+        _ => 3 + s.pick(2) as usize,
+    };
+    let dcid = s.cid_any();
+    let scid = s.cid_any();
+    let tlen = match s.pick(4) {
+        0 => 0,
+        1 => 63,
+        2 => 64,
+        _ => s.wide(200) as usize,
+    };
+    let token = s.bytes(tlen);
+    let pnv = s.wide(1 << 32);
+    let pn = match s.pick(4) {
+        0 => PacketNumber::U8(pnv as u8),
+        1 => PacketNumber::U16(pnv as u16),
+        2 => PacketNumber::U24(pnv as u32 & 0xff_ffff),
+        _ => PacketNumber::U32(pnv as u32),
+    };
+    let n = 1 + s.wide(6) as usize;
+    let mut frames = vec![];
+    let mut guard = 0;
+    while frames.len() < n && guard < 200 {
+        guard += 1;
+        let kind = s.wide(FRAME_KINDS.len() as u64) as usize;
+        let f = g::gen_frame_of(s, kind, 100);
+        let t = VarInt::from(f.frame_type()).into_u64();
+        if !codec_ref::permitted(t, pi).unwrap() {
+            continue;
+        }
+        let enc = g::encode_frame(&f);
+        if enc.len() > 300 || f.encoding_size() + g::data_len(&f) != enc.len() || !decodes_alone(&f) {
+            continue; // too big for one packet / defects of a single frame are reported by the frame group
+        }
+        if !g::is_delimited(&f) && frames.len() + 1 != n {
+            continue;
+        }
+        frames.push(f);
+    }
+    let body: usize = frames.iter().map(|f| g::encode_frame(f).len()).sum();
+    let pad20 = (pn.size() + body + 16 < 20) as usize * (20 - (pn.size() + body + 16).min(20));
+    let last_delimited = frames.last().map(g::is_delimited).unwrap_or(true);
+    let slack = if last_delimited { s.wide(12) as usize } else { 0 };
+    let hdr_size = match hk {
+        2 => 7 + dcid.len() + scid.len() + codec_ref::min_varint_len(tlen as u64) + tlen + 2,
+        3 | 4 => 7 + dcid.len() + scid.len() + 2,
+        _ => 1 + dcid.len(),
+    };
+    let mut buf = vec![0u8; hdr_size + pn.size() + body + pad20 + slack + 16];
+    let frames2 = frames.clone();
+    let r = catch(|| {
+        let k = keys();
+        let mut w = match hk {
+            2 => PacketWriter::new_long(&LongHeaderBuilder::with_cid(dcid, scid).initial(token.clone()), &mut buf, (pnv, pn), k),
+            3 => PacketWriter::new_long(&LongHeaderBuilder::with_cid(dcid, scid).zero_rtt(), &mut buf, (pnv, pn), k),
+            4 => PacketWriter::new_long(&LongHeaderBuilder::with_cid(dcid, scid).handshake(), &mut buf, (pnv, pn), k),
+            _ => PacketWriter::new_short(&OneRttHeader::new((pi == 4).into(), dcid), &mut buf, (pnv, pn), k, KeyPhaseBit::Zero),
+        }
+        .map_err(|e| format!("PacketWriter::new refused a {}-byte buffer: {e:?}", hdr_size + pn.size() + body + pad20 + slack + 16))?;
+        // a frame without a length must end the packet: padding goes in front of it, as production does
+        if pad20 > 0 && !last_delimited {
+            w.put_bytes(0, pad20);
+        }
+        for (i, f) in frames2.iter().enumerate() {
+            dump_frame(f, &mut w, i % 2 == 1).map_err(|e| format!("frame #{i} {} refused with {e:?} although {} bytes remain", g::describe_frame(f), w.remaining_mut()))?;
+        }
+        if pad20 > 0 && last_delimited {
+            w.put_bytes(0, pad20);
+        }
+        let (size, _info) = w.encrypt_and_protect_packet();
+        Ok::<usize, String>(size)
+    });
+    let size = match r {
+        Err(p) => {
+            fail(&mut out, format!("panic:{}", panic_loc(&p)), format!("assembling a {} packet panicked: {}", PKT_NAMES[pi], p.message));
+            return (out, 0);
+        }
+        Ok(Err(m)) => {
+            fail(&mut out, "packet:assemble".into(), m);
+            return (out, 0);
+        }
+        Ok(Ok(n)) => n,
+    };
+    let wire = buf[..size].to_vec();
+    let h = vcore::fnv(&wire);
+    st.bytes += size as u64;
+    if size != hdr_size + pn.size() + body + pad20 + 16 {
+        fail(&mut out, "packet:size".into(), format!("{} packet: {} bytes on the wire, header {hdr_size} + pn {} + frames {body} + pad {pad20} + tag 16 expected", PKT_NAMES[pi], size, pn.size()));
+    }
+    let mut reader = PacketReader::new(BytesMut::from(&wire[..]), dcid.len());
+    let first = catch(|| reader.next());
+    let pkt = match first {
+        Err(p) => {
+            fail(&mut out, format!("panic:{}", panic_loc(&p)), format!("PacketReader panicked on a packet assembled by PacketWriter: {}", p.message));
+            return (out, h);
+        }
+        Ok(Some(Ok(Packet::Data(dp)))) => dp,
+        Ok(other) => {
+            fail(&mut out, "packet:readback".into(), format!("PacketReader does not return the {} data packet PacketWriter assembled: {:?}", PKT_NAMES[pi], other.map(|r| r.map(|_| "other packet kind"))));
+            return (out, h);
+        }
+    };
+    let (hd, hs, ht): (ConnectionId, Option<ConnectionId>, Option<Vec<u8>>) = match &pkt.header {
+        DataHeader::Long(long::DataHeader::Initial(h)) => (*h.dcid(), Some(*h.scid()), Some(h.token().clone())),
+        DataHeader::Long(long::DataHeader::ZeroRtt(h)) => (*h.dcid(), Some(*h.scid()), None),
+        DataHeader::Long(long::DataHeader::Handshake(h)) => (*h.dcid(), Some(*h.scid()), None),
+        DataHeader::Short(h) => (*h.dcid(), None, None),
+    };
+    let want_ty = g::pkt_types()[pi];
+    if pkt.get_type() != want_ty || hd != dcid || hs.is_some_and(|x| x != scid) || ht.as_ref().is_some_and(|t| *t != token) {
+        fail(&mut out, "packet:header".into(), format!("{} packet header reads back differently (type {:?}, dcid {hd:?}/{dcid:?})", PKT_NAMES[pi], pkt.get_type()));
+    }
+    if pkt.bytes.len() != size || pkt.offset != hdr_size {
+        fail(&mut out, "packet:framing".into(), format!("{} packet: reader reports {} bytes with payload at {}, writer wrote {size} bytes with payload at {hdr_size}", PKT_NAMES[pi], pkt.bytes.len(), pkt.offset));
+        return (out, h);
+    }
+    let pn_len = (pkt.bytes[0] & 3) as usize + 1;
+    if pn_len != pn.size() {
+        fail(&mut out, "packet:pnlen".into(), format!("first byte announces a {pn_len}-byte packet number, {} written", pn.size()));
+        return (out, h);
+    }
+    match take_pn_len(pn_len as u8)(&pkt.bytes[pkt.offset..]) {
+        Ok((_, got)) if got == pn => {}
+        other => fail(&mut out, "packet:pn".into(), format!("packet number {pn:?} reads back as {:?}", other.map(|x| x.1).ok())),
+    }
+    let body_bytes = Bytes::copy_from_slice(&pkt.bytes[pkt.offset + pn_len..size - 16]);
+    let mut got = vec![];
+    for r in FrameReader::new(body_bytes, pkt.get_type()) {
+        match r {
+            Ok((f, _)) => {
+                st.decodes += 1;
+                got.push(f)
+            }
+            Err(e) => {
+                fail(&mut out, "packet:frames".into(), format!("frame #{} of the assembled {} packet is rejected: {e}", got.len(), PKT_NAMES[pi]));
+                return (out, h);
+            }
+        }
+    }
+    let mut want = if last_delimited { frames.clone() } else { vec![Frame::Padding(PaddingFrame); pad20] };
+    if last_delimited {
+        want.extend(vec![Frame::Padding(PaddingFrame); pad20]);
+    } else {
+        want.extend(frames.clone());
+    }
+    if got != want {
+        fail(&mut out, "packet:frames".into(), format!("{} frames dumped into a {} packet, {} read back / contents differ", want.len(), PKT_NAMES[pi], got.len()));
+    }
+    match catch(|| reader.next()) {
+        Ok(None) => {}
+        Ok(Some(_)) => fail(&mut out, "packet:framing".into(), "PacketReader yields a second packet from a datagram holding one".into()),
+        Err(p) => fail(&mut out, format!("panic:{}", panic_loc(&p)), format!("PacketReader panicked at the end of the datagram: {}", p.message)),
+    }
+    (out, h)
+}
+
+// ---------------------------------------------------------------------------------------------
+// headers
+// ---------------------------------------------------------------------------------------------
+fn check_header(s: &mut Src, st: &mut Stats) -> (Vec<Fail>, u64) {
+    let mut out = vec![];
+    let h = g::gen_header(s);
+    let kind = match &h {
+        HeaderCase::Vn { .. } => 0,
+        HeaderCase::Retry { .. } => 1,
+        HeaderCase::Initial { .. } => 2,
+        HeaderCase::ZeroRtt { .. } => 3,
+        HeaderCase::Handshake { .. } => 4,
+        HeaderCase::OneRtt { .. } => 5,
+    };
+    let name = g::HEADER_KINDS[kind];
+    // declared size of the header types that have one
+    let mut enc: Vec<u8> = vec![];
+    let declared: Option<usize> = match &h {
+        HeaderCase::Vn { dcid, scid, versions } => {
+            enc.put_header(&LongHeaderBuilder::with_cid(*dcid, *scid).vn(versions.clone()));
+            None
+        }
+        HeaderCase::Retry { dcid, scid, token, integrity } => {
+            enc.put_header(&LongHeaderBuilder::with_cid(*dcid, *scid).retry(token.clone(), *integrity));
+            None
+        }
+        HeaderCase::Initial { dcid, scid, token } => {
+            let hd = LongHeaderBuilder::with_cid(*dcid, *scid).initial(token.clone());
+            enc.put_header(&hd);
+            Some(hd.size())
+        }
+        HeaderCase::ZeroRtt { dcid, scid } => {
+            let hd = LongHeaderBuilder::with_cid(*dcid, *scid).zero_rtt();
+            enc.put_header(&hd);
+            Some(hd.size())
+        }
+        HeaderCase::Handshake { dcid, scid } => {
+            let hd = LongHeaderBuilder::with_cid(*dcid, *scid).handshake();
+            enc.put_header(&hd);
+            Some(hd.size())
+        }
+        HeaderCase::OneRtt { spin, dcid } => {
+            let hd = OneRttHeader::new((*spin).into(), *dcid);
+            enc.put_header(&hd);
+            Some(hd.size())
+        }
+    };
+    st.bytes += enc.len() as u64;
+    let hash = vcore::fnv(&enc);
+    if let Some(d) = declared {
+        if d != enc.len() {
+            fail(&mut out, format!("size:header.{name}"), format!("{name} header: size() = {d}, {} bytes written", enc.len()));
+        }
+    }
+    let dlen = match &h {
+        HeaderCase::Vn { dcid, .. } | HeaderCase::Retry { dcid, .. } | HeaderCase::Initial { dcid, .. } | HeaderCase::ZeroRtt { dcid, .. } | HeaderCase::Handshake { dcid, .. } | HeaderCase::OneRtt { dcid, .. } => dcid.len(),
+    };
+    let r = catch(|| {
+        let (remain, ty) = be_packet_type(&enc).map_err(|e| format!("packet type rejected: {e:?}"))?;
+        let (remain, hd) = be_header(ty, dlen, remain).map_err(|e| format!("header rejected: {e:?}"))?;
+        Ok::<_, String>((enc.len() - remain.len(), ty, hd))
+    });
+    st.decodes += 1;
+    match r {
+        Err(p) => fail(&mut out, format!("panic:{}", panic_loc(&p)), format!("decoding a {name} header panicked: {}", p.message)),
+        Ok(Err(m)) => fail(&mut out, format!("roundtrip:header.{name}"), format!("{name} header {h:?}: {m}")),
+        Ok(Ok((consumed, ty, hd))) => {
+            if consumed != enc.len() {
+                fail(&mut out, format!("consumed:header.{name}"), format!("{name} header: {consumed} of {} bytes consumed", enc.len()));
+            }
+            let same = match (&h, &hd) {
+                (HeaderCase::Vn { dcid, scid, versions }, Header::VN(x)) => x.dcid() == dcid && x.scid() == scid && x.versions() == versions && ty == x.get_type(),
+                (HeaderCase::Retry { dcid, scid, token, integrity }, Header::Retry(x)) => x.dcid() == dcid && x.scid() == scid && x.token() == token && x.integrity() == integrity && ty == x.get_type(),
+                (HeaderCase::Initial { dcid, scid, token }, Header::Initial(x)) => x.dcid() == dcid && x.scid() == scid && x.token() == token && ty == x.get_type(),
+                (HeaderCase::ZeroRtt { dcid, scid }, Header::ZeroRtt(x)) => x.dcid() == dcid && x.scid() == scid && ty == x.get_type(),
+                (HeaderCase::Handshake { dcid, scid }, Header::Handshake(x)) => x.dcid() == dcid && x.scid() == scid && ty == x.get_type(),
+                (HeaderCase::OneRtt { spin, dcid }, Header::OneRtt(x)) => x.dcid() == dcid && bool::from(x.spin()) == *spin && ty == x.get_type(),
+                _ => false,
+            };
+            if !same {
+                fail(&mut out, format!("roundtrip:header.{name}"), format!("{name} header {h:?} reads back as {hd:?}"));
+            }
+        }
+    }
+    // as a whole packet with an opaque payload, for the headers that carry one
+    if kind >= 2 {
+        let plen = 20 + s.wide(80) as usize;
+        let payload = s.bytes(plen);
+        let w = if kind == 5 {
+            0
+        } else {
+            let w = [1usize, 2, 4, 8][s.pick(4) as usize];
+            if plen >= 64 && w == 1 { 2 } else { w }
+        };
+        let mut wire = g::raw_packet(&h, &payload, w.max(1));
+        let one = wire.len();
+        let trailing = kind != 5 && s.pick(2) == 1;
+        if trailing {
+            // a second, short-header packet coalesced behind it
+            wire.extend_from_slice(&g::raw_packet(&HeaderCase::OneRtt { spin: false, dcid: ConnectionId::from_slice(&vec![9u8; dlen]) }, &payload, 1));
+        }
+        let total = wire.len();
+        let mut reader = PacketReader::new(BytesMut::from(&wire[..]), dlen);
+        match catch(|| reader.next()) {
+            Ok(Some(Ok(Packet::Data(dp)))) => {
+                st.decodes += 1;
+                let want_off = if kind == 5 { enc.len() } else { enc.len() + w };
+                if dp.bytes.len() != one || dp.offset != want_off || dp.bytes[dp.offset..] != payload[..] {
+                    fail(&mut out, format!("consumed:packet.{name}"), format!("{name} packet of {one} bytes (payload at {want_off}) framed as {} bytes with payload at {}", dp.bytes.len(), dp.offset));
+                }
+            }
+            Ok(other) => fail(&mut out, format!("roundtrip:packet.{name}"), format!("{name} packet with a {plen}-byte payload and a {w}-byte Length is not returned as a data packet: {:?}", other.map(|r| r.map(|_| "other kind")))),
+            Err(p) => fail(&mut out, format!("panic:{}", panic_loc(&p)), format!("PacketReader panicked on a valid {name} packet: {}", p.message)),
+        }
+        match catch(|| reader.next()) {
+            Ok(None) if !trailing => {}
+            Ok(Some(Ok(Packet::Data(dp)))) if trailing && dp.bytes.len() == total - one => {}
+            Ok(other) => fail(&mut out, format!("consumed:packet.{name}.coalesced"), format!("after a {name} packet (coalesced second packet: {trailing}) the reader yields {:?}", other.map(|r| r.map(|_| "a packet")))),
+            Err(p) => fail(&mut out, format!("panic:{}", panic_loc(&p)), format!("PacketReader panicked on the coalesced packet: {}", p.message)),
+        }
+    }
+    (out, hash)
+}
+
+// ---------------------------------------------------------------------------------------------
+// transport parameters
+// ---------------------------------------------------------------------------------------------
+fn check_params(s: &mut Src, st: &mut Stats) -> (Vec<Fail>, u64) {
+    let mut out = vec![];
+    let c = g::gen_params(s);
+    let role = if c.role == Role::Client { "client" } else { "server" };
+    let enc = match catch(|| g::encode_params(&c)) {
+        Err(p) => {
+            fail(&mut out, format!("panic:{}", panic_loc(&p)), format!("encoding {role} parameters {:?} panicked: {}", c.list, p.message));
+            return (out, 0);
+        }
+        Ok(Err(_refused)) => {
+            // `set` refused a value (the library's bounds are tighter than the generator's): not a
+            // value this role can encode, nothing to check
+            st.params_refused += 1;
+            return (out, 0);
+        }
+        Ok(Ok(v)) => v,
+    };
+    st.bytes += enc.len() as u64;
+    let h = vcore::fnv(&enc);
+    // independent framing of the blob: exactly the parameters that were set
+    let rp = codec_ref::ref_params(&enc, c.role == Role::Client);
+    if rp.malformed.is_some() || rp.entries.len() != c.list.len() || rp.duplicate {
+        fail(
+            &mut out,
+            format!("roundtrip:params.{role}.wire"),
+            format!("{role} parameters {:?}: the written blob is not a well-formed sequence of those {} parameters ({:?}, {} found)", c.list.iter().map(|x| x.0).collect::<Vec<_>>(), c.list.len(), rp.malformed, rp.entries.len()),
+        );
+    }
+    // each parameter alone
+    let mut rest = &enc[..];
+    let mut seen = 0;
+    while !rest.is_empty() {
+        let r = catch(|| {
+            let (remain, (id, body)) = be_raw_parameter(rest).map_err(|e| format!("{e:?}"))?;
+            let pid = ParameterId::try_from(id).map_err(|e| format!("{e}"))?;
+            let (left, v) = be_parameter_value(body, pid).map_err(|e| format!("{pid:?}: {e:?}"))?;
+            Ok::<_, String>((remain, pid, v, left.len()))
+        });
+        st.decodes += 1;
+        match r {
+            Err(p) => {
+                fail(&mut out, format!("panic:{}", panic_loc(&p)), format!("decoding a written {role} parameter panicked: {}", p.message));
+                break;
+            }
+            Ok(Err(m)) => {
+                fail(&mut out, format!("roundtrip:params.{role}.value"), format!("written parameter is rejected: {m}"));
+                break;
+            }
+            Ok(Ok((remain, pid, v, left))) => {
+                seen += 1;
+                let want = c.list.iter().find(|x| x.0 == pid).map(|x| &x.1);
+                if want != Some(&v) || left != 0 {
+                    fail(&mut out, format!("roundtrip:params.{role}.value"), format!("{pid:?} = {want:?} reads back as {v:?} ({left} value bytes left over)"));
+                }
+                rest = remain;
+            }
+        }
+    }
+    if out.is_empty() && seen != c.list.len() {
+        fail(&mut out, format!("roundtrip:params.{role}.wire"), format!("{} parameters set, {seen} read back", c.list.len()));
+    }
+    // the whole set through the production parser
+    let whole = catch(|| match (c.role, c.complete) {
+        (Role::Client, true) => Some(ClientParameters::parse_from_bytes(&enc).map(|p| Ok(p) == g::build_client(&c.list)).map_err(|e| e.to_string())),
+        (Role::Server, true) => Some(ServerParameters::parse_from_bytes(&enc).map(|p| Ok(p) == g::build_server(&c.list)).map_err(|e| e.to_string())),
+        (Role::Server, false) => Some(ServerParameters::try_from_remembered_bytes(&enc).map(|p| Ok(p) == g::build_server(&c.list)).map_err(|e| e.to_string())),
+        (Role::Client, false) => None,
+    });
+    match whole {
+        Err(p) => fail(&mut out, format!("panic:{}", panic_loc(&p)), format!("parsing written {role} parameters panicked: {}", p.message)),
+        Ok(None) => {}
+        Ok(Some(r)) => {
+            st.decodes += 1;
+            match r {
+                Ok(true) => {}
+                Ok(false) => fail(&mut out, format!("roundtrip:params.{role}"), format!("{role} parameter set {:?} parses to a different set", c.list)),
+                Err(e) => fail(&mut out, format!("roundtrip:params.{role}.rejected"), format!("{role} parameter set {:?} is rejected by the parser: {e}", c.list)),
+            }
+        }
+    }
+    (out, h)
+}
+
+// ---------------------------------------------------------------------------------------------
+// primitives
+// ---------------------------------------------------------------------------------------------
+const PRIM_KINDS: [&str; 12] = ["varint", "cid", "socket_addr", "endpoint_addr", "link", "reset_token", "preferred_address", "packet_number", "frame_type", "stream_id", "error_kind", "parameter_id"];
+
+fn suffix_len(whole: &[u8], remain: &[u8]) -> usize {
+    whole.len() - remain.len()
+}
+
+fn check_prim(s: &mut Src, st: &mut Stats) -> (Vec<Fail>, u64) {
+    let mut out = vec![];
+    let k = s.pick(PRIM_KINDS.len() as u64) as usize;
+    let name = PRIM_KINDS[k];
+    let mut hash = 0u64;
+    let r = catch(|| {
+        let mut o: Vec<(String, String)> = vec![];
+        let mut bad = |clause: &str, what: String| o.push((format!("{clause}:{name}"), what));
+        let mut enc: Vec<u8> = vec![];
+        match k {
+            0 => {
+                let v = vi(s.varint());
+                enc.put_varint(&v);
+                if enc.len() != v.encoding_size() {
+                    bad("size", format!("varint {v}: encoding_size {} but {} bytes written", v.encoding_size(), enc.len()));
+                }
+                match be_varint(&enc) {
+                    Ok((rest, got)) if rest.is_empty() && got == v => {}
+                    other => bad("roundtrip", format!("varint {v} reads back as {other:?}")),
+                }
+                for (w, nb) in [(1usize, EncodeBytes::One), (2, EncodeBytes::Two), (4, EncodeBytes::Four), (8, EncodeBytes::Eight)] {
+                    if w < v.encoding_size() {
+                        continue;
+                    }
+                    let mut e2: Vec<u8> = vec![];
+                    e2.encode_varint(&v, nb);
+                    e2.push(0xaa);
+                    match be_varint(&e2) {
+                        Ok((rest, got)) if rest.len() == 1 && got == v && e2.len() == w + 1 => {}
+                        other => bad("roundtrip", format!("varint {v} forced to {w} bytes reads back as {other:?}")),
+                    }
+                }
+            }
+            1 => {
+                let c = s.cid_any();
+                enc.put_connection_id(&c);
+                if enc.len() != c.encoding_size() {
+                    bad("size", format!("cid of {} bytes: encoding_size {} but {} written", c.len(), c.encoding_size(), enc.len()));
+                }
+                match be_connection_id(&enc) {
+                    Ok((rest, got)) if rest.is_empty() && got == c => {}
+                    other => bad("roundtrip", format!("cid {c:?} reads back as {other:?}")),
+                }
+                match be_connection_id_with_len(&enc[1..], c.len()) {
+                    Ok((rest, got)) if rest.is_empty() && got == c => {}
+                    other => bad("roundtrip", format!("cid {c:?} (explicit length) reads back as {other:?}")),
+                }
+            }
+            2 => {
+                let fam = s.family();
+                let a = s.sock_addr(fam);
+                enc.put_socket_addr(&a);
+                if enc.len() != a.encoding_size() || a.encoding_size() > a.max_encoding_size() {
+                    bad("size", format!("{a}: encoding_size {} / max {} but {} written", a.encoding_size(), a.max_encoding_size(), enc.len()));
+                }
+                match be_socket_addr(&enc, fam) {
+                    Ok((rest, got)) if rest.is_empty() && got == a => {}
+                    other => bad("roundtrip", format!("{a} reads back as {other:?}")),
+                }
+            }
+            3 => {
+                let fam = s.family();
+                let relay = s.pick(2) as u8;
+                let e = if relay == 0 { EndpointAddr::direct(s.sock_addr(fam)) } else { EndpointAddr::with_agent(s.sock_addr(fam), s.sock_addr(fam)) };
+                enc.put_endpoint_addr(e);
+                if enc.len() != e.encoding_size() {
+                    bad("size", format!("{e}: encoding_size {} but {} written", e.encoding_size(), enc.len()));
+                }
+                match be_endpoint_addr(&enc, relay, fam) {
+                    Ok((rest, got)) if rest.is_empty() && got == e => {}
+                    other => bad("roundtrip", format!("{e} reads back as {other:?}")),
+                }
+            }
+            4 => {
+                let fam = s.family();
+                let l = Link::new(s.sock_addr(fam), s.sock_addr(fam));
+                enc.put_link(&l);
+                if enc.len() != l.encoding_size() || l.encoding_size() > l.max_encoding_size() {
+                    bad("size", format!("{l}: encoding_size {} / max {} but {} written", l.encoding_size(), l.max_encoding_size(), enc.len()));
+                }
+                match be_link(&enc) {
+                    Ok((rest, got)) if rest.is_empty() && got == l => {}
+                    other => bad("roundtrip", format!("{l} reads back as {other:?}")),
+                }
+            }
+            5 => {
+                let t = s.reset_token();
+                enc.put_reset_token(&t);
+                if enc.len() != t.encoding_size() {
+                    bad("size", format!("reset token: encoding_size {} but {} written", t.encoding_size(), enc.len()));
+                }
+                match be_reset_token(&enc) {
+                    Ok((rest, got)) if rest.is_empty() && got == t => {}
+                    other => bad("roundtrip", format!("reset token reads back as {other:?}")),
+                }
+            }
+            6 => {
+                let p = g::preferred_address(s);
+                enc.put_preferred_address(&p);
+                if enc.len() != p.encoding_size() {
+                    bad("size", format!("{p:?}: encoding_size {} but {} written", p.encoding_size(), enc.len()));
+                }
+                match be_preferred_address(&enc) {
+                    Ok((rest, got)) if rest.is_empty() && got == p => {}
+                    other => bad("roundtrip", format!("{p:?} reads back as {other:?}")),
+                }
+            }
+            7 => {
+                let v = match s.pick(5) {
+                    0 => 0,
+                    1 => u64::MAX,
+                    2 => 0x80,
+                    3 => 0x8000_0000,
+                    _ => s.wide(u64::MAX),
+                };
+                let pn = match s.pick(4) {
+                    0 => PacketNumber::U8(v as u8),
+                    1 => PacketNumber::U16(v as u16),
+                    2 => PacketNumber::U24(v as u32 & 0xff_ffff),
+                    _ => PacketNumber::U32(v as u32),
+                };
+                enc.put_packet_number(pn);
+                if enc.len() != pn.size() {
+                    bad("size", format!("{pn:?}: size {} but {} written", pn.size(), enc.len()));
+                }
+                match take_pn_len(pn.size() as u8)(&enc) {
+                    Ok((rest, got)) if rest.is_empty() && got == pn => {}
+                    other => bad("roundtrip", format!("{pn:?} reads back as {other:?}")),
+                }
+            }
+            8 => {
+                let all = g::all_frame_types();
+                let t = all[s.pick(all.len() as u64) as usize];
+                enc.put_frame_type(t);
+                if enc.len() != VarInt::from(t).encoding_size() {
+                    bad("size", format!("{t:?}: {} bytes written", enc.len()));
+                }
+                match be_frame_type(&enc) {
+                    Ok((rest, got)) if rest.is_empty() && got == t => {}
+                    other => bad("roundtrip", format!("{t:?} reads back as {other:?}")),
+                }
+            }
+            9 => {
+                let sid = s.stream_id();
+                enc.put_streamid(&sid);
+                if enc.len() != sid.encoding_size() {
+                    bad("size", format!("{sid:?}: encoding_size {} but {} written", sid.encoding_size(), enc.len()));
+                }
+                match be_streamid(&enc) {
+                    Ok((rest, got)) if rest.is_empty() && got == sid => {}
+                    other => bad("roundtrip", format!("{sid:?} reads back as {other:?}")),
+                }
+            }
+            10 => {
+                let e = g::error_kind(s);
+                let v = VarInt::from(e);
+                enc.put_varint(&v);
+                match ErrorKind::try_from(v) {
+                    Ok(got) if got == e => {}
+                    other => bad("roundtrip", format!("{e:?} reads back as {other:?}")),
+                }
+            }
+            _ => {
+                let id = g::ALL_PARAM_IDS[s.pick(g::ALL_PARAM_IDS.len() as u64) as usize];
+                enc.put_parameter_id(id);
+                match be_varint(&enc).map(|(r, v)| (r.len(), ParameterId::try_from(v))) {
+                    Ok((0, Ok(got))) if got == id => {}
+                    other => bad("roundtrip", format!("{id:?} reads back as {other:?}")),
+                }
+            }
+        }
+        (o, enc)
+    });
+    st.decodes += 1;
+    match r {
+        Err(p) => fail(&mut out, format!("panic:{}", panic_loc(&p)), format!("{name} codec panicked: {}", p.message)),
+        Ok((o, enc)) => {
+            hash = vcore::fnv(&enc) ^ (k as u64) << 56;
+            st.bytes += enc.len() as u64;
+            for (sig, what) in o {
+                fail(&mut out, sig, what);
+            }
+        }
+    }
+    let _ = suffix_len;
+    (out, hash)
+}
+
+// ---------------------------------------------------------------------------------------------
+// driver
+// ---------------------------------------------------------------------------------------------
+const GROUPS: [&str; 6] = ["frame", "sequence", "packet", "header", "params", "prim"];
+
+fn run_group(group: &str, s: &mut Src, st: &mut Stats, rep: &mut Report) -> (Vec<Fail>, u64, bool) {
+    match group {
+        "frame" => {
+            let f = g::gen_frame(s);
+            let kind = FRAME_KINDS[g::frame_kind(&f)];
+            rep.count(&format!("frame_values.{kind}"));
+            let fails = check_frame(&f, st);
+            let enc = catch(|| g::encode_frame(&f)).unwrap_or_default();
+            let trivial = matches!(f, Frame::Padding(_) | Frame::Ping(_) | Frame::HandshakeDone(_));
+            (fails, vcore::fnv(&enc), !trivial)
+        }
+        "sequence" => {
+            let (f, h) = check_sequence(s, st);
+            (f, h ^ 1, true)
+        }
+        "packet" => {
+            let (f, h) = check_packet(s, st);
+            (f, h ^ 2, true)
+        }
+        "header" => {
+            let (f, h) = check_header(s, st);
+            (f, h ^ 3, true)
+        }
+        "params" => {
+            let (f, h) = check_params(s, st);
+            (f, h ^ 4, true)
+        }
+        _ => {
+            let (f, h) = check_prim(s, st);
+            (f, h ^ 5, true)
+        }
+    }
+}
+
+fn report(rep: &mut Report, fails: Vec<Fail>, replay: Value) {
+    for f in fails {
+        rep.violation(f.sig, f.what, replay.clone());
+    }
+}
+
+fn fit_cases(thorough: bool) -> Vec<FitCase> {
+    let mut caps: Vec<usize> = (0..=90).collect();
+    caps.extend(120..=135);
+    caps.extend([255, 256, 1162, 1200, 1452, 1500]);
+    caps.extend(16370..=16400);
+    caps.extend([65507, 65535]);
+    if thorough {
+        caps.extend((136..=1500).step_by(7));
+    }
+    let offsets: Vec<u64> = if thorough {
+        vec![0, 1, 63, 64, 16383, 16384, (1 << 30) - 1, 1 << 30, (1 << 61) - 1, 1 << 61, (1 << 62) - 70000, (1 << 62) - 1]
+    } else {
+        vec![0, 63, 64, 16384, 1 << 30, (1 << 61) - 1, (1 << 62) - 70000]
+    };
+    let sids: Vec<u64> = if thorough { vec![0, 3, 63, 64, 16383, 16384, (1 << 30) - 1, 1 << 30, (1 << 62) - 1] } else { vec![0, 63, 64, 16384, (1 << 62) - 1] };
+    let mut v = vec![];
+    for &cap in &caps {
+        for &offset in &offsets {
+            for nsel in 0..4 {
+                v.push(FitCase { stream: false, cap, sid: 0, offset, nsel, fin: false });
+            }
+            for &sid in &sids {
+                for nsel in 0..5 {
+                    for fin in [false, true] {
+                        v.push(FitCase { stream: true, cap, sid, offset, nsel, fin });
+                    }
+                }
+            }
+        }
+    }
+    v
+}
+
+pub fn run(args: &Args, rep: &mut Report) {
+    rep.rule = "value = one frame / frame sequence / assembled packet / header / transport-parameter set / primitive drawn from the \
+                boundary-enumerating generators; distinct = distinct encodings (hash of group and written bytes); non-trivial = the value has at \
+                least one field (PADDING, PING and HANDSHAKE_DONE are counted as evaluations only)"
+        .into();
+    let mut st = Stats::default();
+    if let Some(path) = args.get("replay") {
+        let v: Value = serde_json::from_str(&std::fs::read_to_string(path).unwrap()).unwrap();
+        let v = if v.get("replay").is_some() { v["replay"].clone() } else { v };
+        rep.evaluations += 1;
+        let group = v["group"].as_str().unwrap_or("frame").to_string();
+        if group == "fit" {
+            let c = FitCase::from_json(&v);
+            let (fails, _) = check_fit(&c);
+            report(rep, fails, v.clone());
+        } else {
+            let trace: Vec<u64> = v["trace"].as_array().unwrap().iter().map(|x| x.as_u64().unwrap()).collect();
+            let mut s = Src::replay(trace);
+            let (fails, _, _) = run_group(&group, &mut s, &mut st, rep);
+            report(rep, fails, v.clone());
+        }
+        return;
+    }
+    let thorough = args.get("tier") == Some("thorough");
+    let shard = args.u64("shard", 0);
+    let shards = args.u64("shards", 1);
+    let seed = args.seed();
+
+    let t0 = std::time::Instant::now(); // for a cost note only, never for a verdict
+    // 1. exhaustive boundary enumeration of every generator (depth-first over its choices)
+    let enum_cap = args.u64("enum-cap", if thorough { 5_000_000 } else { 400_000 });
+    let mut idx = 0u64;
+    for group in ["frame", "header", "params", "prim"] {
+        let mut digits = vec![];
+        let mut n_group = 0u64;
+        loop {
+            let mine = idx % shards == shard;
+            idx += 1;
+            n_group += 1;
+            let mut s = Src::enumerate(digits.clone());
+            if mine {
+                let (fails, h, nontrivial) = run_group(group, &mut s, &mut st, rep);
+                rep.evaluations += 1;
+                rep.count(&format!("enumerated.{group}"));
+                if nontrivial {
+                    rep.distinct(h);
+                }
+                if !fails.is_empty() {
+                    report(rep, fails, json!({"kind":"c05","group":group,"trace":s.trace}));
+                }
+            } else {
+                // walk the generator only, to advance the odometer
+                match group {
+                    "frame" => {
+                        g::gen_frame(&mut s);
+                    }
+                    "header" => {
+                        let mut st2 = Stats::default();
+                        // header generation draws the payload after the header: replicate cheaply
+                        let _ = check_header(&mut s, &mut st2);
+                    }
+                    "params" => {
+                        g::gen_params(&mut s);
+                    }
+                    _ => {
+                        let mut st2 = Stats::default();
+                        let _ = check_prim(&mut s, &mut st2);
+                    }
+                }
+            }
+            match s.next_digits() {
+                Some(d) if n_group < enum_cap => digits = d,
+                Some(_) => {
+                    rep.exhaustive = Some(false);
+                    rep.notes.push(format!("enumeration of group {group} capped at {enum_cap}"));
+                    break;
+                }
+                None => break,
+            }
+        }
+        rep.max(&format!("max_enumeration_size.{group}"), n_group);
+        if shard == 0 {
+            rep.notes.push(format!("shard 0: enumeration of {group} done at {:.1}s", t0.elapsed().as_secs_f64()));
+        }
+    }
+    if rep.exhaustive.is_none() {
+        rep.exhaustive = Some(true);
+    }
+
+    // 2. sizing sequences
+    for (i, c) in fit_cases(thorough).iter().enumerate() {
+        if i as u64 % shards != shard {
+            continue;
+        }
+        let (fails, exercised) = check_fit(c);
+        rep.evaluations += 1;
+        if exercised {
+            rep.count(if c.stream { "fit_cases.stream" } else { "fit_cases.crypto" });
+        } else {
+            rep.count("fit_cases.no_room");
+        }
+        if !fails.is_empty() {
+            report(rep, fails, c.to_json());
+        }
+    }
+
+    if shard == 0 {
+        rep.notes.push(format!("shard 0: sizing sequences done at {:.1}s", t0.elapsed().as_secs_f64()));
+    }
+    // 3. seeded random sampling of the same generators
+    let n = args.budget(if thorough { 400_000 } else { 12_000 });
+    for i in 0..n {
+        let group = GROUPS[(i % GROUPS.len() as u64) as usize];
+        let case_seed = vcore::fnv(format!("c05/{seed}/{shard}/{i}").as_bytes());
+        let mut s = Src::random(case_seed);
+        let (fails, h, nontrivial) = run_group(group, &mut s, &mut st, rep);
+        rep.evaluations += 1;
+        rep.count(&format!("random.{group}"));
+        if nontrivial {
+            rep.distinct(h);
+        }
+        if i < 3 && shard == 0 {
+            rep.sample(json!({"group": group, "trace": s.trace.iter().take(24).collect::<Vec<_>>()}));
+        }
+        if !fails.is_empty() {
+            report(rep, fails, json!({"kind":"c05","group":group,"trace":s.trace}));
+        }
+    }
+    rep.add("decodes_compared", st.decodes);
+    rep.add("wrong_packet_type_checks", st.wrongtype);
+    rep.add("package_fit_checks", st.pkg_fit);
+    rep.add("package_refuse_checks", st.pkg_refuse);
+    rep.add("bytes_encoded", st.bytes);
+    rep.add("param_sets_refused_by_set", st.params_refused);
 }
